@@ -171,10 +171,50 @@ func (g *gen) Int() *N {
 			if !g.cfg.ConstFns || !g.cfg.Calls {
 				continue
 			}
+			if g.r.Chance(2, 3) {
+				return nCall("CI", g.constInt(2))
+			}
 			return nCall("CI", g.Int())
 		default:
 			return g.intLeaf()
 		}
+	}
+}
+
+// constInt: an int expression the optimiser can reduce to a constant: literals,
+// arithmetic on literals (never a literal zero divisor), nested constant calls.
+func (g *gen) constInt(depth int) *N { return g.constIntX(depth, true) }
+
+// constLit: as constInt but literal arithmetic only (usable where an integer
+// literal is retyped to another integer type).
+func (g *gen) constLit(depth int) *N { return g.constIntX(depth, false) }
+
+func (g *gen) constIntX(depth int, calls bool) *N {
+	g.left--
+	if depth <= 0 {
+		return g.lit()
+	}
+	k := g.r.Intn(7)
+	if k == 4 && !calls {
+		k = 0
+	}
+	switch k {
+	case 0, 1:
+		return g.lit()
+	case 2:
+		return nBin(g.r.Pick([]string{"+", "-", "*"}), g.constIntX(depth-1, calls), g.constIntX(depth-1, calls))
+	case 3:
+		return nUn("-", g.constIntX(depth-1, calls))
+	case 4:
+		return nCall("CI", g.constIntX(depth-1, calls))
+	case 5:
+		op := "/"
+		if calls {
+			op = g.r.Pick([]string{"/", "%"})
+		}
+		return nBin(op, g.constIntX(depth-1, calls), nInt(g.r.Range(1, 5)))
+	default:
+		return nInt(g.r.Range(0, 9))
 	}
 }
 
@@ -443,6 +483,9 @@ func (g *gen) Bool() *N {
 			if !g.cfg.ConstFns || !g.cfg.Calls {
 				continue
 			}
+			if g.r.Chance(2, 3) {
+				return nCall("CB", g.constInt(1), g.constInt(1))
+			}
 			return nCall("CB", g.Int(), g.Int())
 		case 19:
 			if !g.cfg.Dyn {
@@ -458,6 +501,10 @@ func (g *gen) Bool() *N {
 			case 1:
 				return nBin(g.r.Pick([]string{"==", "!="}), a, g.Int())
 			case 2:
+				if !g.cfg.AllocOnly && g.r.Chance(1, 2) {
+					// dynamic left operand against a literal array (a rewrite candidate)
+					return nBin(g.r.Pick([]string{"in", "not in"}), a, nArr(nInt(g.r.Range(-3, 3)), nInt(g.r.Range(0, 9)), nInt(1)))
+				}
 				return nBin(g.r.Pick([]string{"in", "not in"}), a, nID(g.r.Pick([]string{"Xs", "Ys"})))
 			default:
 				if a.K != "call" {
@@ -534,6 +581,16 @@ func (g *gen) Str() *N {
 		case 9:
 			if !g.cfg.ConstFns || !g.cfg.Calls {
 				continue
+			}
+			if g.r.Chance(2, 3) {
+				switch g.r.Intn(3) {
+				case 0:
+					return nCall("CS", nStr(g.r.Pick(strPool)))
+				case 1:
+					return nCall("CS", nBin("+", nStr(g.r.Pick(strPool)), nStr(g.r.Pick(strPool))))
+				default:
+					return nCall("CS", nCall("CS", nStr(g.r.Pick(strPool))))
+				}
 			}
 			return nCall("CS", g.Str())
 		}
